@@ -11,4 +11,10 @@ package connector
 // inside one transaction; callbacks are spawned after the commit attempt.
 //verif:func (*Persister).flushNow(p, ctx, batch, st)
 //verif:call[callback-nil-only-if-stored-and-committed] go:(*Persister).flushNow$1 requires called("DB.NewTransaction") && (err$1 == nil ==> allok("$field.storeFunc") && succeeded("Transaction.Commit"))
+//verif:loop 0 invariant succeeded("DB.NewTransaction")
+//verif:loop 0 invariant !called("Transaction.Commit")
+//verif:loop 0 invariant err$1 == nil ==> allok("$field.storeFunc")
+//verif:loop 1 invariant called("DB.NewTransaction") && (err$1 == nil ==> allok("$field.storeFunc") && succeeded("Transaction.Commit"))
+//verif:call-preserves $field.storeFunc : err$1 because "err is a local of flushNow that is captured only by the callback closures created afterwards; a store function cannot reach it"
+//verif:call-preserves Transaction.Commit : err$1 because "see above"
 //verif:call[store-inside-transaction] $field.storeFunc requires succeeded("DB.NewTransaction") && !called("Transaction.Commit")
